@@ -3,6 +3,7 @@
 // captures the bytes delivered to the XalanOutputStream, and parses them back with Xerces (SAX2).
 //
 // Request (one per line):   doc <U|L> <encoding> <1.0|1.1> <event>...
+//                    or:    stream <encoding> <hex run>...          (XalanOutputStream alone: write(run) ..., flush())
 //                    or:    docx <U|L> <encoding> <1.0|1.1> decl=<0|1>,sa=<hex>,sys=<hex>,pub=<hex>[,ind=<n>] <event>...
 //   events (single words; strings are lower-case hex of UTF-16 code units, "-" = empty):
 //     s:<name>[:<attrname>=<attrvalue>]*   startElement
@@ -349,6 +350,39 @@ static std::string run(const std::vector<std::string>& w)
     return "ok " + hexBytes(stream.bytes) + " " + (stream.sizes.empty() ? std::string("-") : stream.sizes) + " | " + reparse(stream.bytes);
 }
 
+// stream <encoding> <hex run>...: the stream layer alone - XalanOutputStream::write(const XalanDOMChar*, n) for every
+// run (the runs may cut a surrogate pair anywhere, as FormatterToXML's own buffer does), then flush()
+static std::string runStream(const std::vector<std::string>& w)
+{
+    MemoryManager& mm = XalanMemMgrs::getDefaultXercesMemMgr();
+    if (w.size() < 2) return "bad";
+    CaptureStream stream(mm);
+    std::string status = "ok";
+    try
+    {
+        stream.setOutputEncoding(mk(w[1].c_str(), mm));
+        stream.setThrowTranscodeException(true);
+        for (size_t k = 2; k < w.size(); ++k)
+        {
+            UStr a;
+            if (!unhex(w[k], a)) return "bad";
+            // exact-size heap copy: a read past the run is seen by ASan
+            XalanDOMChar* buf = new XalanDOMChar[a.size() + 1];
+            for (size_t j = 0; j < a.size(); ++j) buf[j] = a[j];
+            try { stream.write(buf, XalanOutputStream::size_type(a.size())); }
+            catch (...) { delete[] buf; throw; }
+            delete[] buf;
+        }
+        stream.flush();
+    }
+    catch (const XalanOutputStream::TranscodingException&) { status = "err transcode"; }
+    catch (const XalanOutputStream::XalanOutputStreamException&) { status = "err stream"; }
+    catch (const XSLException&) { status = "err xsl"; }
+    catch (...) { status = "err unknown"; }
+    if (status != "ok") return status + " " + hexBytes(stream.bytes);
+    return "ok " + hexBytes(stream.bytes) + " " + (stream.sizes.empty() ? std::string("-") : stream.sizes);
+}
+
 int main()
 {
     XMLPlatformUtils::Initialize();
@@ -361,6 +395,7 @@ int main()
             std::vector<std::string> w;
             std::string t;
             while (in >> t) w.push_back(t);
+            if (!w.empty() && w[0] == "stream") { std::cout << runStream(w) << "\n"; continue; }
             if (w.empty() || (w[0] != "doc" && w[0] != "docx")) { std::cout << "bad\n"; continue; }
             std::cout << run(w) << "\n";
         }
